@@ -96,6 +96,13 @@ def fmt_idx(v):
         i = j + 1
     return ','.join(out)
 
+def spell(rng, p):
+    """another spelling of the same name: every file system here folds case (a user prefix or directory part is kept)"""
+    if rng.random() < 0.25:
+        return p.lower() if rng.random() < 0.7 else ''.join(c.lower() if rng.random() < 0.5 else c for c in p)
+    return p
+
+
 def history(rng, fs, nops, lock_heavy=False, valid_only=False):
     cfg = FS[fs]
     live = []      # names the generator believes exist (files)
@@ -118,7 +125,7 @@ def history(rng, fs, nops, lock_heavy=False, valid_only=False):
             live.append(p)
         elif r < 0.57:
             p = rng.choice(live)
-            ops.append(f"D~{p}")
+            ops.append(f"D~{spell(rng, p)}")
             if rng.random() < 0.9:
                 live.remove(p)
         elif r < 0.65:
@@ -126,12 +133,12 @@ def history(rng, fs, nops, lock_heavy=False, valid_only=False):
             nn = gen_name(rng, cfg, fs)
             if ':' in p:
                 nn = p.split(':')[0] + ':' + nn     # CP/M: stay in the same user area
-            ops.append(f"R~{p}~{nn}")
+            ops.append(f"R~{spell(rng, p)}~{spell(rng, nn)}")
             live.remove(p)
             live.append((p.rsplit('/', 1)[0] + '/' + nn) if '/' in p else nn)
         elif r < (0.85 if lock_heavy else 0.72):
             p = rng.choice(live)
-            ops.append(f"{rng.choice('LLU')}~{p}")
+            ops.append(f"{rng.choice('LLU')}~{spell(rng, p)}")
         elif r < 0.75 and fs in ('dos33', 'dos32', 'prodos'):
             p = rng.choice(live)
             ty = rng.choice({'dos33': ['txt', 'bin', 'atok', 'itok'], 'dos32': ['txt', 'bin', 'itok'], 'prodos': ['txt', 'bin', 'atok', 'sys']}[fs])
@@ -145,7 +152,7 @@ def history(rng, fs, nops, lock_heavy=False, valid_only=False):
             # intentionally refused: duplicate name / rename onto existing
             p = rng.choice(live)
             if rng.random() < 0.5 or len(live) < 2:
-                ops.append(f"P~{p}~0~U~~")
+                ops.append(f"P~{spell(rng, p)}~0~U~~")
             else:
                 q = rng.choice(live)
                 tgt = q.rsplit('/', 1)[-1]
@@ -153,7 +160,7 @@ def history(rng, fs, nops, lock_heavy=False, valid_only=False):
                     # CP/M: rename onto a name of the same user area (must be refused) or the same name in another area (must be accepted)
                     u = p.split(':')[0] if ':' in p else '0'
                     tgt = u + ':' + tgt.split(':')[-1]
-                ops.append(f"R~{p}~{tgt}")
+                ops.append(f"R~{p}~{spell(rng, tgt)}")
         elif r < 0.94:
             ops.append(rng.choice([f"D~NOSUCH{rng.randrange(100)}", f"R~NOSUCH{rng.randrange(100)}~ZZ", f"L~NOSUCH{rng.randrange(100)}"]))
         elif valid_only:
